@@ -1,6 +1,6 @@
 (* dispatch : list Z -> list Z  -- the single entry point of the extracted model *)
 From Coq Require Import ZArith List Bool.
-From GV.Model Require Export Wire Wire2 Repr Gym Rays.
+From GV.Model Require Export Wire Wire2 Repr Gym Rays Factory.
 Import ListNotations.
 Open Scope Z_scope.
 
@@ -131,6 +131,12 @@ Definition op_fan (l : list Z) : list Z :=
   run (do a <- parea; do o <- ppos; do rays <- prays; pret (a, o, rays))
       (fun '(a, o, rays) => [if acontains a o && fan_ok a o rays then 1 else 0; fan_diagnose a o rays]) l.
 
+(* a component factory: registry rows, name, given keys -> index of the function and the keys bound *)
+Definition psigrow : parser sigrow := do n <- pZ; do req <- plist pZ; do opt <- plist pZ; pret (n, req, opt).
+Definition op_factory (l : list Z) : list Z :=
+  run (do reg <- plist psigrow; do name <- pZ; do ks <- plist pZ; pret (reg, name, ks))
+      (fun '(reg, name, ks) => eres (fun r => Z.of_nat (fst r) :: elist (fun e => [fst e]) (snd r)) (factory reg name (map (fun k => (k, tt)) ks))) l.
+
 Definition dispatch (l : list Z) : list Z :=
   match l with
   | 1 :: r => op_geometry r
@@ -150,5 +156,6 @@ Definition dispatch (l : list Z) : list Z :=
   | 15 :: r => op_gym r
   | 16 :: r => op_advertised r
   | 17 :: r => op_fan r
+  | 18 :: r => op_factory r
   | _ => undecodable
   end.
